@@ -118,13 +118,26 @@ def loader_oracle(case, stats):
         tol = inspect.signature(Atoms.load_lmpdat).parameters["guess_atol"].default
         case = dict(case, tol=tol)
     text = _lmpdat_text(masses, case.get("labels"))
+    entry = case.get("entry", "load_lmpdat")
     try:
-        if case.get("default_tol"):
+        if entry == "load-file":
+            # the general entry point with an open file; options are passed through to the format's loader
+            a = Atoms.load(io.StringIO(text), filetype="lmpdat") if case.get("default_tol") else \
+                Atoms.load(io.StringIO(text), filetype="lmpdat", guess_atol=tol)
+        elif entry == "load-path":
+            import os
+            from mv.quiet import workdir
+            path = os.path.join(workdir(), "c14.lmpdat")
+            with open(path, "w") as f:
+                f.write(text)
+            a = Atoms.load(path) if case.get("default_tol") else Atoms.load(path, guess_atol=tol)
+        elif case.get("default_tol"):
             a = Atoms.load_lmpdat(io.StringIO(text))
         else:
             a = Atoms.load_lmpdat(io.StringIO(text), guess_atol=tol)
     except Exception as e:
-        raise Violation("loader-raised", "masses=%r tol=%r: %r" % (masses, tol, e))
+        raise Violation("loader-raised", "masses=%r tol=%r via %s: %r" % (masses, tol, entry, e))
+    stats.count("entry:" + entry)
     expected = [spec(m, tol, table) for m in masses]
     must_fallback = any(len(e[1]) == 0 for e in expected)
     may_fallback = must_fallback or any(e[2] for e in expected)
@@ -217,6 +230,14 @@ def loader_cases(tier, seed):
         cases.append({"masses": l, "tol": 0.1})
         cases.append({"masses": l[::-1], "tol": 0.1, "labels": ["L%d" % k for k in range(13)]})
     cases.append({"masses": [round(m + 0.02, 6) for m in ms], "tol": 0.1})
+    # the same through the general entry point Atoms.load (open file / path), with explicit and default tolerance, and with
+    # the smallest tolerance there is (0: nothing but an exact table mass can match, so type numbers are used)
+    for entry in ("load-file", "load-path", "load_lmpdat"):
+        for i in range(0, len(ms) - 3, 11):
+            l = [round(m + 0.004, 6) for m in ms[i:i + 3]]
+            for tol in (0.0, 0.001, 0.01, 0.1, 0.5):
+                cases.append({"masses": l, "tol": tol, "entry": entry})
+            cases.append({"masses": l, "tol": 0.1, "default_tol": True, "entry": entry})
     return cases
 
 
@@ -248,7 +269,11 @@ def random_case(draw):
         else:
             m = draw(st.floats(0.0, 300.0))
         masses.append(max(0.0, m))
-    return {"masses": masses, "tol": tol, "route": draw(st.sampled_from(["helper", "loader"]))}
+    route = draw(st.sampled_from(["helper", "loader", "loader"]))
+    case = {"masses": masses, "tol": tol, "route": route}
+    if route == "loader":
+        case["entry"] = draw(st.sampled_from(["load_lmpdat", "load-file", "load-path"]))
+    return case
 
 
 def random_oracle(case, stats):
